@@ -3,13 +3,17 @@ import DuneVerif.Common.Proto
 /-!
 line-protocol driver for C04 (format: see harness/mpi_c04.cc)
 
-  c04 <P> <flags> <hints> : seg;seg;...
+  c04 <P> <flags> <hints> [g=<type>] [comm=<spec>] : seg;seg;...
+
+The global index type only restricts the range of the global indices of the line (the model's global indices are
+integers, all the model uses is their order); the communicator only decides which world process plays which rank
+(the answers are listed by rank in the communicator, processes left out answer `{}`).  Both tokens are validated.
 
 The driver keeps the model's `World` (per rank: three index set objects with their sequence numbers, which of them
 are source and target, includeSelf, hints, the `RIState`) plus the pending adds/deletes of the harness protocol.
 Every segment becomes `World.step` events of the faithful model `DV.C04.F`: `R`/`r` → `resize` with the new contents,
 `B<ign>` → the collective `rebuild` (all ranks, ring rounds or network-level neighbour exchange), `F` → `free`,
-`X<k>` → `setIndexSets`, `I` → `setIncludeSelf`, `N` → `setNeighbours`; `S` prints `isSynced`.
+`X<k>[,<hints>]` → `setIndexSets` (with the hints in force or the new ones), `I` → `setIncludeSelf`, `N` → `setNeighbours`; `S` prints `isSynced`.
 -/
 open DV DV.C04 DV.C04.F
 
@@ -23,6 +27,8 @@ structure Pend where
 
 structure St where
   w : World
+  gLo : Int := -2147483648      -- range of the global index type
+  gHi : Int := 2147483647
   pend : Array (Array Pend)     -- [rank][object]
   two : Array Bool
   out : Array (List String)     -- observations per rank, reversed
@@ -98,6 +104,7 @@ def step (st : St) (seg : String) : Option St :=
         match s.toNat?, r.toNat?, g.toInt? with
         | some s, some r, some g =>
           if s > 1 || r ≥ P then none else
+          if g < st.gLo || g > st.gHi then none else
           let rw := st.w.getD r default
           let isTwo := st.two.getD r false
           let o := objOf rw s
@@ -145,13 +152,31 @@ def step (st : St) (seg : String) : Option St :=
       let w' := (List.range P).foldl (fun w p => (w.step (.free p)).getD w) st.w
       some (note { st with w := w' } fun _ r => "f" ++ toString r.ri.remote.length)
     else if kind == 'X' then
-      if rest != "0" && rest != "1" then none else
-      let swap := rest == "1"
-      let w' := (List.range P).foldl (fun w p =>
-        let r := w.getD p default
-        let (s, t) := if swap then (r.tgtObj, r.srcObj) else (r.srcObj, r.tgtObj)
-        (w.step (.setSets p s t r.hints)).getD w) st.w
-      some (note { st with w := w' } fun _ r => "x" ++ toString r.ri.remote.length)
+      let kc := restc.take 1
+      if kc != ['0'] && kc != ['1'] then none else
+      let swap := kc == ['1']
+      -- `X<k>`: the hints in force are passed again; `X<k>,<hints>`: new hints
+      let newHints : Option (Option (List (List Nat))) :=
+        match restc.drop 1 with
+        | [] => some none
+        | ',' :: hc =>
+          let hs := (String.ofList hc).splitOn "/"
+          if hs.length != P then none else
+          match hs.mapM (parseHints P) with
+          | none => none
+          | some hl => if hintsOk P hl then some (some hl) else none
+        | _ => none
+      match newHints with
+      | none => none
+      | some nh =>
+        let w' := (List.range P).foldl (fun w p =>
+          let r := w.getD p default
+          let (s, t) := if swap then (r.tgtObj, r.srcObj) else (r.srcObj, r.tgtObj)
+          let h := match nh with
+            | none => r.hints
+            | some hl => hl.getD p []
+          (w.step (.setSets p s t h)).getD w) st.w
+        some (note { st with w := w' } fun _ r => "x" ++ toString r.ri.remote.length)
     else if kind == 'I' then
       match rest.splitOn "," with
       | [r, b] =>
@@ -172,15 +197,66 @@ def step (st : St) (seg : String) : Option St :=
         some { st with w := w' }
     else none
 
+/-- range of the global index type named by `g=` -/
+def gRange (t : String) : Option (Int × Int) :=
+  if t == "int" then some (-2147483648, 2147483647)
+  else if t == "long" then some (-(2 ^ 62 : Int) + 1, (2 ^ 62 : Int) - 1)
+  else if t == "big24" then some (0, (2 ^ 24 : Int) - 1)
+  else if t == "big40" || t == "pair" then some (0, (2 ^ 40 : Int) - 1)
+  else none
+
+/-- `comm=w | d | r0.r1...[+n]`: the number of world processes left out of the communicator, `none` if malformed
+    (the members are `P` distinct world ranks `< P + n`) -/
+def commExtra (P : Nat) (v : String) : Option Nat :=
+  if v == "w" || v == "d" then some 0 else
+  let pm := v.splitOn "+"
+  let extra : Option Nat := match pm with
+    | [_] => some 0
+    | [_, n] => match n.toNat? with
+      | some k => if k ≥ 1 then some k else none
+      | none => none
+    | _ => none
+  match extra with
+  | none => none
+  | some n =>
+    match ((pm.headD "").splitOn ".").mapM (·.toNat?) with
+    | none => none
+    | some ms => if ms.length == P && ms.all (· < P + n) && ms.eraseDups.length == ms.length then some n else none
+
+structure Opts where
+  g : Option (Int × Int) := none
+  extra : Option Nat := none
+
+def parseOpts : List String → Nat → Opts → Option Opts
+  | [], _, o => some o
+  | t :: ts, P, o =>
+    if t.startsWith "g=" then
+      if o.g.isSome then none else
+      match gRange (String.ofList (t.toList.drop 2)) with
+      | some r => parseOpts ts P { o with g := some r }
+      | none => none
+    else if t.startsWith "comm=" then
+      if o.extra.isSome then none else
+      match commExtra P (String.ofList (t.toList.drop 5)) with
+      | some n => parseOpts ts P { o with extra := some n }
+      | none => none
+    else none
+
 def handle (line : String) : String :=
   let parts := line.splitOn " : "
   let head := parts.headD ""
   let body := " : ".intercalate (parts.drop 1)
   match tokens head with
-  | ["c04", ps, flags, hints] =>
+  | "c04" :: ps :: flags :: hints :: optToks =>
     match ps.toNat? with
     | none => "bad-op"
     | some P =>
+      if optToks.length > 2 then "bad-op" else
+      match parseOpts optToks P {} with
+      | none => "bad-op"
+      | some opts =>
+      let (gLo, gHi) := opts.g.getD (-2147483648, 2147483647)
+      let extra := opts.extra.getD 0
       let fl := flags.toList
       let hs := hints.splitOn "/"
       if P == 0 || fl.length != P || hs.length != P then "bad-op" else
@@ -192,15 +268,16 @@ def handle (line : String) : String :=
         let flag (r : Nat) : Nat := (fl.getD r '0').toNat - '0'.toNat
         let w : World := (List.range P).map fun r =>
           { srcObj := 0, tgtObj := if flag r % 2 == 1 then 1 else 0, incl := (flag r / 2) % 2 == 1, hints := hl.getD r [] }
-        let init : St := { w := w, pend := (List.range P).toArray.map fun _ => #[{}, {}, {}],
+        let init : St := { w := w, gLo := gLo, gHi := gHi, pend := (List.range P).toArray.map fun _ => #[{}, {}, {}],
                            two := (List.range P).toArray.map fun r => flag r % 2 == 1,
                            out := (List.range P).toArray.map fun _ => [] }
         let segs := (String.ofList (body.toList.filter (· != ' '))).splitOn ";"
         match segs.foldlM step init with
         | none => "bad-op"
         | some fin =>
-          " ".intercalate ((List.range P).map fun r =>
-            "r" ++ toString r ++ "{" ++ ";".intercalate ((fin.out.getD r []).reverse) ++ "}")
+          " ".intercalate (((List.range P).map fun r =>
+            "r" ++ toString r ++ "{" ++ ";".intercalate ((fin.out.getD r []).reverse) ++ "}") ++
+            ((List.range extra).map fun i => "r" ++ toString (P + i) ++ "{}"))
   | _ => "bad-op"
 
 end C04Drv
